@@ -454,11 +454,75 @@ def rules(ctx: Ctx) -> None:
                        f"(.parent / join / ...): the derived value itself must pass a containment guard on every path to the sink")
     ctx.extra["body_keys_reaching_sinks"] = sorted(sink_keys)
 
+    # ---- R17.3 who sets the root, and to what: the guard is only as narrow as the root it compares against.  The root is the configured SQL
+    # directory, or the directory that holds the file the server was started for - never an ancestor computed from them
+    root_attr = None
+    for m in app_cls.methods.values():
+        if any(isinstance(n, ast.Call) and isinstance(n.func, ast.Attribute) and n.func.attr in ("is_relative_to", "relative_to", "commonpath", "startswith") for n in prog.walk_fn(m)):
+            attrs_ = [n.attr for n in prog.walk_fn(m) if is_self_attr_any(n)]
+            if attrs_:
+                root_attr = attrs_[0]
+    if root_attr is None:
+        raise AnalysisError("attribute holding the guard's root not found (self attribute read by the containment predicate)")
+    n_root = 0
+    for f in prog.funcs.values():
+        if f.mod is not app_cls.mod:
+            continue
+        for n in prog.walk_fn(f):
+            if not (isinstance(n, ast.Attribute) and isinstance(n.ctx, ast.Store) and n.attr == root_attr):
+                continue
+            st = prog.enclosing_stmt(n)
+            val = getattr(st, "value", None)
+            n_root += 1
+            ok, why = _root_value_ok(prog, f, val)
+            ctx.ob("R17.3", f"root-is-the-configured-directory-or-the-file's-folder:{f.owner}", ok, loc(f.mod, st),
+                   f"`{u(st)[:80]}`: {why}")
+    ctx.floor("assignments of the guard's root", n_root, 2)
     # ---- R17.3 observation -------------------------------------------------------------
     init = app_cls.methods.get("__init__")
     if init is not None:
         ctx.note("R17.3 observation: the guard root is app.root_path (set at import from SQLLineageConfig.DIRECTORY and by draw_lineage_graph); "
                  "the directory handler's default listing reads SQLLineageConfig.DIRECTORY at request time")
+
+
+def is_self_attr_any(n: ast.AST) -> bool:
+    return isinstance(n, ast.Attribute) and isinstance(n.value, ast.Name) and n.value.id == "self" and isinstance(n.ctx, ast.Load)
+
+
+def _root_value_ok(prog: Prog, f: Fn, val: Optional[ast.AST]) -> tuple[bool, str]:
+    """configured directory | folder of a given file: Path(...), .resolve(), .absolute(), str() and os.path.abspath / dirname keep the meaning;
+    exactly one step up (`.parent` / dirname) is allowed, and only from a value that is not itself computed from several paths."""
+    if val is None:
+        return False, "no value"
+    ups = 0
+    e = val
+    for _ in range(12):
+        if isinstance(e, ast.Call) and isinstance(e.func, ast.Attribute) and e.func.attr in ("resolve", "absolute", "expanduser") and not e.args:
+            e = e.func.value
+        elif isinstance(e, ast.Call) and u(e.func) in ("Path", "str", "os.path.abspath", "os.path.realpath", "abspath", "realpath", "pathlib.Path") and len(e.args) == 1:
+            e = e.args[0]
+        elif isinstance(e, ast.Call) and u(e.func) in ("os.path.dirname", "dirname") and len(e.args) == 1:
+            ups += 1
+            e = e.args[0]
+        elif isinstance(e, ast.Attribute) and e.attr == "parent":
+            ups += 1
+            e = e.value
+        elif isinstance(e, ast.Name):
+            srcs = [v for v in prog.value_sources(f, e) if not (isinstance(v, ast.Name) and v.id == e.id)]
+            if len(srcs) == 1:
+                e = srcs[0]
+            else:
+                break
+        else:
+            break
+    if isinstance(e, ast.Attribute) and isinstance(e.value, ast.Name) and e.value.id == "SQLLineageConfig":
+        return (ups == 0, "the configured directory" if ups == 0 else f"{ups} level(s) above the configured directory")
+    is_given = isinstance(e, ast.Name) or (isinstance(e, ast.Call) and isinstance(e.func, ast.Attribute) and e.func.attr in ("get", "pop")) or isinstance(e, ast.Subscript)
+    if is_given and ups == 1:
+        return True, "the folder that holds the given file"
+    if is_given and ups == 0:
+        return True, "the given directory"
+    return False, f"the root is computed (`{u(e)[:50]}`, {ups} level(s) up): it may be an ancestor of both the configured directory and the file's folder, and everything below it becomes readable"
 
 
 def _sink_name(call: ast.Call) -> str:
